@@ -37,6 +37,7 @@ def cases(rng, tier):
             c["coef2"] = [str(rng.dyadic(-16, 16, 4)) for _ in range(rng.randint(1, 3))]
             c["normalized"] = rng.random() < 0.5
             c["argrep"] = S.pick_argrep(rng)      # the flag as the literal, numpy.bool_, a 0-d array, 0 / 1
+            c["container"] = rng.choice(["array", "array", "array", "labels"])
             c["via"] = rng.choice(["process", "weaver"])
             c["sin"] = False
             # trends whose values are external to the model (judged by the oracle against y_i + f(x_i))
@@ -146,6 +147,8 @@ def run_impl(c):
     try:
         if k in ("trend", "lintrend"):
             NZ = S.flag(c["normalized"], c.get("argrep", "plain"))
+            if c.get("container") == "labels" and c["via"] == "process":
+                ya = S.LabelSeries(ya)                 # a column of a sorted data frame (process.* functions only)
             seen = []
             f1 = poly([Fraction(v) for v in c["coef"]])
 
